@@ -725,6 +725,167 @@ theorem mkWS_idem (L : Leaves N B D R) (a : WS N B D R) : mkWS L (mkWS L a) = mk
 theorem mkWS_decodedWS (L : Leaves N B D R) (x : WS N B D R) : mkWS L (decodedWS L x) = decodedWS L x := by
   simp only [mkWS, decodedWS, map_toNE_decodedNE]
 
+/-! ## constructed witnesses hold the plain key: the round trip returns the object itself -/
+
+/-- the key is what the decoder builds: a `VerificationKey` with the default envelope -/
+def VKW.Plain (w : VKW) : Prop := w.vkey = mkKey .verification w.vkey.payload
+
+theorem decodedVKW_of_plain (w : VKW) (h : w.Plain) : decodedVKW w = w := by
+  cases w with
+  | mk vkey sig =>
+    simp only [VKW.Plain] at h
+    simp only [decodedVKW]
+    rw [← h]
+
+/-- **every constructed witness that `validate` accepts holds the plain key** — whatever class (`VerificationKey`,
+payment / stake / pool, extended or not) and envelope the key was handed over with -/
+theorem mkVKW_plain (k : KeyObj) (s : Prim) (h : vkwValid (mkVKW k s) = true) : (mkVKW k s).Plain := by
+  unfold VKW.Plain
+  by_cases h1 : k.cls.isExtVerification = true
+  · simp only [mkVKW, h1, if_true]; rfl
+  · by_cases h2 : k.cls.isVerification = true
+    · simp only [mkVKW, h1, h2, if_true, if_false]; rfl
+    · simp only [vkwValid, mkVKW, h1, h2, if_false, Bool.and_eq_true, Bool.or_eq_true] at h
+      rcases h.1 with h | h
+      · exact absurd h h2
+      · exact absurd h h1
+
+theorem valid_canon (w : VKW) (h : vkwValid w = true) : w.sig.Canon := by
+  simp only [vkwValid, Bool.and_eq_true] at h
+  cases hs : w.sig with
+  | int i => trivial
+  | bytes b => trivial
+  | other x => rw [hs] at h; simp [Prim.isBytes] at h
+
+theorem decVKW_constructed (k : KeyObj) (s : Prim) (h : vkwValid (mkVKW k s) = true) :
+    decVKW (vkwItem (mkVKW k s)) = .ok (mkVKW k s) := by
+  rw [decVKW_vkwItem _ (valid_canon _ h), decodedVKW_of_plain _ (mkVKW_plain k s h)]
+
+theorem pyEq_refl (w : VKW) : VKW.pyEq w w = true := by
+  simp [VKW.pyEq, KeyObj.pyEq]
+
+/-- the keys of two plain witnesses differ only where the wire differs -/
+theorem vkwKey_decodedVKW_of_plain (w : VKW) (h : w.Plain) : vkwKey (decodedVKW w) = vkwKey w := by
+  rw [decodedVKW_of_plain w h]
+
+/-- `list == OrderedSet` / `OrderedSet.__eq__`: the same elements in the same order -/
+def Coll.sameElems {α : Type} (a b : Coll α) : Prop := a.elems = b.elems
+
+/-- `==` of the `redeemer` field: lists element by element, `RedeemerMap`s as dicts (same entries, keys distinct) -/
+def Redeemers.pyEq : Redeemers R → Redeemers R → Prop
+  | .list a, .list b => a = b
+  | .map a, .map b => a.Perm b
+  | _, _ => False
+
+def optRel {α : Type} (r : α → α → Prop) : Option α → Option α → Prop
+  | Option.none, Option.none => True
+  | some a, some b => r a b
+  | _, _ => False
+
+/-- `dataclass.__eq__` of two witness sets, field by field (the five rebuilt fields: the very same sets) -/
+structure WS.PyEq (y x : WS N B D R) : Prop where
+  vkeys : y.vkeys = x.vkeys
+  native : y.native = x.native
+  bootstrap : optRel Coll.sameElems y.bootstrap x.bootstrap
+  v1 : y.v1 = x.v1
+  datums : optRel Coll.sameElems y.datums x.datums
+  redeemers : optRel Redeemers.pyEq y.redeemers x.redeemers
+  v2 : y.v2 = x.v2
+  v3 : y.v3 = x.v3
+
+/-- a tagged set in `bootstrap_witness` / `plutus_data` holds no element twice (it is an `OrderedSet`) -/
+def PlainSetsDistinct (L : Leaves N B D R) (x : WS N B D R) : Prop :=
+  (∀ xs, x.bootstrap = some (.oset true xs) → (xs.map (leafKey L.bootstrap)).Nodup) ∧
+  (∀ xs, x.datums = some (.oset true xs) → (xs.map (leafKey L.datum)).Nodup)
+
+theorem map_decodedNE_toNE {α κ : Type} [DecidableEq κ] (key : α → κ) (nf : α → α) (o : Option (Coll α))
+    (h : ∀ c, o = some c → ∀ x ∈ dedupBy key c.elems, nf x = x) :
+    (o.map (toNE key)).map (decodedNE key nf) = o.map (toNE key) := by
+  cases o with
+  | none => rfl
+  | some c =>
+    have hm : (dedupBy key c.elems).map nf = dedupBy key c.elems := by
+      conv => rhs; rw [← List.map_id (dedupBy key c.elems)]
+      exact List.map_congr_left (fun x hx => h c rfl x hx)
+    show some (Coll.oset true (dedupBy key ((dedupBy key c.elems).map nf))) = some (Coll.oset true (dedupBy key c.elems))
+    rw [hm, dedupBy_idem]
+
+theorem optRel_decodedPlain {α κ : Type} [DecidableEq κ] (key : α → κ) (o : Option (Coll α))
+    (h : ∀ xs, o = some (.oset true xs) → (xs.map key).Nodup) :
+    optRel Coll.sameElems (o.map (decodedPlain key)) o := by
+  cases o with
+  | none => trivial
+  | some c =>
+    cases c with
+    | list xs => simp [Option.map, optRel, decodedPlain, Coll.sameElems]
+    | oset t xs =>
+      cases t with
+      | false => simp [Option.map, optRel, decodedPlain, Coll.sameElems, Coll.elems]
+      | true => simp [Option.map, optRel, decodedPlain, Coll.sameElems, Coll.elems, dedupBy_of_nodup key xs (h xs rfl)]
+
+theorem optRel_decodedRedeemers (o : Option (Redeemers R)) : optRel Redeemers.pyEq (o.map decodedRedeemers) o := by
+  cases o with
+  | none => trivial
+  | some r =>
+    cases r with
+    | list rs => simp [Option.map, optRel, decodedRedeemers, Redeemers.pyEq]
+    | map m => simp only [Option.map, optRel, decodedRedeemers, Redeemers.pyEq]; exact rmapSorted_perm m
+
+/-- what decoding the encoding of a CONSTRUCTED witness set returns is `==` the witness set -/
+theorem decodedWS_pyEq (L : Leaves N B D R) (a : WS N B D R)
+    (hv : ∀ c, (mkWS L a).vkeys = some c → ∀ w ∈ c.elems, w.Plain) (hd : PlainSetsDistinct L (mkWS L a)) :
+    WS.PyEq (decodedWS L (mkWS L a)) (mkWS L a) := by
+  refine ⟨?_, ?_, ?_, ?_, ?_, ?_, ?_, ?_⟩
+  · show ((a.vkeys.map (toNE vkwKey)).map (decodedNE vkwKey decodedVKW)) = a.vkeys.map (toNE vkwKey)
+    apply map_decodedNE_toNE
+    intro c hc x hx
+    refine decodedVKW_of_plain x (hv (toNE vkwKey c) (by simp [mkWS, hc]) x ?_)
+    simpa [toNE, Coll.elems] using hx
+  · show ((a.native.map (toNE (leafKey L.native))).map (decodedNE (leafKey L.native) id)) = _
+    exact map_decodedNE_toNE _ _ _ (fun _ _ _ _ => rfl)
+  · exact optRel_decodedPlain _ _ hd.1
+  · show ((a.v1.map (toNE id)).map (decodedNE id id)) = _
+    exact map_decodedNE_toNE _ _ _ (fun _ _ _ _ => rfl)
+  · exact optRel_decodedPlain _ _ hd.2
+  · exact optRel_decodedRedeemers _
+  · show ((a.v2.map (toNE id)).map (decodedNE id id)) = _
+    exact map_decodedNE_toNE _ _ _ (fun _ _ _ _ => rfl)
+  · show ((a.v3.map (toNE id)).map (decodedNE id id)) = _
+    exact map_decodedNE_toNE _ _ _ (fun _ _ _ _ => rfl)
+
+/-- … and it is written as the witness set was: no hypothesis on the vkey witnesses beyond their being constructed -/
+theorem wsItem_decodedWS_constructed (L : Leaves N B D R) (a : WS N B D R)
+    (hv : ∀ c, (mkWS L a).vkeys = some c → ∀ w ∈ c.elems, w.Plain) (hd : PlainSetsDistinct L (mkWS L a)) :
+    wsItem L (decodedWS L (mkWS L a)) = wsItem L (mkWS L a) := by
+  obtain ⟨e0, e1, _, e3, _, _, e6, e7⟩ := decodedWS_pyEq L a hv hd
+  have hb := optPair_map_congr 2 (collItem L.bootstrap.enc) (decodedPlain (leafKey L.bootstrap)) (mkWS L a).bootstrap
+    (fun c hc => by
+      cases c with
+      | list xs => rfl
+      | oset t xs =>
+        cases t with
+        | false => rfl
+        | true => simp only [decodedPlain, dedupBy_of_nodup _ xs (hd.1 xs hc)])
+  have hdm := optPair_map_congr 4 (collItem L.datum.enc) (decodedPlain (leafKey L.datum)) (mkWS L a).datums
+    (fun c hc => by
+      cases c with
+      | list xs => rfl
+      | oset t xs =>
+        cases t with
+        | false => rfl
+        | true => simp only [decodedPlain, dedupBy_of_nodup _ xs (hd.2 xs hc)])
+  have hr := optPair_map_congr 5 (redeemersItem L.rdata) decodedRedeemers (mkWS L a).redeemers
+    (fun r _ => redeemersItem_decoded L.rdata r)
+  have h0 : (decodedWS L (mkWS L a)).vkeys = (mkWS L a).vkeys := e0
+  have h1 : (decodedWS L (mkWS L a)).native = (mkWS L a).native := e1
+  have h3 : (decodedWS L (mkWS L a)).v1 = (mkWS L a).v1 := e3
+  have h6 : (decodedWS L (mkWS L a)).v2 = (mkWS L a).v2 := e6
+  have h7 : (decodedWS L (mkWS L a)).v3 = (mkWS L a).v3 := e7
+  have h2 : (decodedWS L (mkWS L a)).bootstrap = (mkWS L a).bootstrap.map (decodedPlain (leafKey L.bootstrap)) := rfl
+  have h4 : (decodedWS L (mkWS L a)).datums = (mkWS L a).datums.map (decodedPlain (leafKey L.datum)) := rfl
+  have h5 : (decodedWS L (mkWS L a)).redeemers = (mkWS L a).redeemers.map decodedRedeemers := rfl
+  simp only [wsItem, h0, h1, h2, h3, h4, h5, h6, h7, hb, hdm, hr]
+
 /-! ## conformance to the CDDL (`Spec/WitnessCodec.lean`) -/
 
 namespace Conf
